@@ -48,6 +48,7 @@ pred InitBound(m) := ite(m < 314, 1, ite(m < 471, 2, ite(m < 549, 4, ite(m < 588
 func lzhuf.newLZHUFF() (z)
   props C08 C06 C07 C03
   ensures fresh: z != nil
+  ensures no-match-yet: z.matchLength == 0 && z.matchPosition == 0
   ensures canonical-root: z.freq[_T] == 65535 && z.prnt[_R] == 0
   ensures s-positive: forall i :: 0 <= i && i < _T ==> 1 <= z.freq[i]
   ensures s-sorted: Sorted(z)
@@ -74,6 +75,23 @@ func lzhuf.newLZHUFF() (z)
   loop 1 invariant bound: forall m :: 0 <= m && m < j ==> 1 <= z.freq[m] && z.freq[m] <= InitBound(m)
 
 # ---------------------------------------------------------------------------
+# C07: the format parameters are the canonical ones (LZHUF.C, Yoshizaki/Okumura 1988, as
+# used by FBB and Winlink).  A change of the window, the lookahead, the match threshold,
+# the alphabet, the rebuild limit or of any entry of the position-code tables still
+# round-trips with itself (C06) - these lemmas are what pins the format.  The closed forms
+# below are the structure of the canonical position code (1 code of 3 bits, 3 of 4, 8 of 5,
+# 12 of 6, 24 of 7, 16 of 8 bits), not a transcription of the tables in lzhuf.go.
+# ---------------------------------------------------------------------------
+lemma canonical-parameters [C07]: _N == 2048 && _F == 60 && _Threshold == 2 && _NIL == 2048 && _NumChar == 314 && _T == 627 && _R == 626 && _MaxFreq == 32768
+
+pred CanonLen(c) := ite(c < 1, 3, ite(c < 4, 4, ite(c < 12, 5, ite(c < 24, 6, ite(c < 48, 7, 8)))))
+pred CanonFirst(c) := ite(c < 1, 0, ite(c < 4, 32 + 16 * (c - 1), ite(c < 12, 80 + 8 * (c - 4), ite(c < 24, 144 + 4 * (c - 12), ite(c < 48, 192 + 2 * (c - 24), 240 + (c - 48))))))
+pred CanonCodeOf(i) := ite(i < 32, 0, ite(i < 80, 1 + div(i - 32, 16), ite(i < 144, 4 + div(i - 80, 8), ite(i < 192, 12 + div(i - 144, 4), ite(i < 240, 24 + div(i - 192, 2), 48 + (i - 240))))))
+
+lemma canonical-encoder-position-table [C07 C06]: forall c :: 0 <= c && c < 64 ==> pLen[c] == CanonLen(c) && pCode[c] == CanonFirst(c)
+lemma canonical-decoder-position-table [C07 C06]: forall i :: 0 <= i && i < 256 ==> dCode[i] == CanonCodeOf(i) && dLen[i] == CanonLen(CanonCodeOf(i))
+
+# ---------------------------------------------------------------------------
 # bit reader
 # ---------------------------------------------------------------------------
 
@@ -94,7 +112,7 @@ func lzhuf.(*Reader).getByte(d) (c)
   ensures byte: 0 <= c && c <= 255
 
 func lzhuf.(*Reader).advanceState(d) ()
-  props C08 C03
+  props C08 C03 C06
   requires r: 0 <= d.state.r && d.state.r < 2048
   ensures r: d.state.r == (old(d.state.r) + 1) % 2048
   ensures pos: d.state.pos == wrap32s(old(d.state.pos) + 1)
@@ -124,7 +142,7 @@ func lzhuf.(*lzhuf).reconst(z) ()
   ensures inv: HuffInv(z) && z.freq[_R] < 32768
 
 func lzhuf.(*Reader).decodeChar(d) (c)
-  props C08 C03
+  props C08 C03 C06
   requires src: d.r.r != nil
   requires z: d.z != nil && HuffInv(d.z)
   ensures sym: 0 <= c && c < _NumChar
@@ -132,9 +150,16 @@ func lzhuf.(*Reader).decodeChar(d) (c)
   loop 0 invariant node: (0 <= c && c + 1 < _R) || (_T <= c && c < _T + _NumChar)
   loop 0 decreases ite(c < _T, c + 1, 0)
 
+ghost var gPosByte int
 func lzhuf.(*Reader).decodePosition(d) (r)
-  props C08 C03
+  props C08 C03 C06 C07
   requires src: d.r.r != nil
+  mode bv
+  ensures within-window: 0 <= r && r < 4096
+  ensures upper-six-bits-by-table: (r >> 6) == u64(dCode[gPosByte])
+  loop 0 invariant j: j <= 6
+  # the upper six bits come from the canonical table, indexed by the next 8 bits of the stream
+  call lzhuf.(*Reader).getByte set gPosByte := $r0
   loop 0 decreases j
 
 # ---------------------------------------------------------------------------
@@ -149,11 +174,27 @@ pred ReaderInv(d) :=
   && 0 <= d.state.buf.len && d.state.buf.len <= d.state.pos
   && d.state.pos <= max(d.header.size, 0)
 
+ghost var gRdStage int
+ghost var gTee io.Reader
 func lzhuf.NewReader(r, crc16) (d, err)
   props C08 C03 C04 C07
   requires src: r != nil
   ensures inv: err == nil ==> d != nil && ReaderInv(d)
   ensures fresh: err == nil ==> d.state.pos == 0 && d.state.buf.len == 0 && d.err == nil && d.crc16 == crc16 && d.r.err == nil
+  # container layout as read (C07): the CRC field (little endian, B2 only) comes first and is not
+  # itself checksummed; everything after it - the little-endian 32-bit size field and the codes -
+  # goes through the checksum tee
+  call binary.Read#0 requires crc-field-first-little-endian [C07 C04]: d.crc16 && gRdStage == 0 && typeis($1, "binary.littleEndian") && typeis($2, "*lzhuf.crc16")
+  call binary.Read#0 set gRdStage := 1
+  call io.TeeReader requires checksum-starts-after-crc-field [C07 C04]: gRdStage == ite(d.crc16, 1, 0) && unbox($1) == d.crcw && same($0, r)
+  call io.TeeReader set gTee := $r0
+  call io.TeeReader set gRdStage := 2
+  call binary.Read#1 requires size-field-little-endian-through-checksum [C07 C04]: gRdStage == 2 && same($0, gTee) && typeis($1, "binary.littleEndian") && typeis($2, "*int32")
+  call lzhuf.newBitReader requires codes-through-checksum [C07 C04]: gRdStage == 2 && same($0, gTee)
+  requires stage: gRdStage == 0
+  # the F positions before the start position lie in the window of spaces (a reference before the
+  # start of the data decodes to spaces, as the encoder assumes)
+  ensures pre-window-is-spaces [C07 C06]: err == nil ==> _F <= d.state.r && d.state.r <= _N - _F
   # the canonical initial window: N-F spaces (a back-reference into it decodes to spaces)
   ensures window-of-spaces: err == nil ==> forall k :: 0 <= k && k < _N - _F ==> d.z.textBuf[k] == ' '
   loop 0 invariant spaces: 0 <= i && i <= _N - _F && forall k :: 0 <= k && k < i ==> d.z.textBuf[k] == ' '
@@ -167,7 +208,7 @@ func lzhuf.NewB2Reader(r) (d, err)
   ensures inv: err == nil ==> d != nil && ReaderInv(d) && d.crc16
 
 func lzhuf.(*Reader).Read(d, p) (n, err)
-  props C08 C03
+  props C08 C03 C06
   requires inv: ReaderInv(d)
   ensures inv: ReaderInv(d)
   ensures bounds: 0 <= n && n <= len(p)
@@ -187,6 +228,243 @@ func lzhuf.(*Reader).Read(d, p) (n, err)
   loop 1 invariant progress: k > 0 ==> n > 0
   loop 1 invariant pos: (k == 0 ==> d.state.pos == entry(d.state.pos)) && (k > 0 ==> d.state.pos > entry(d.state.pos))
   loop 1 decreases j - k
+  # a byte that does not fit the caller's buffer is kept for the next Read - the byte just decoded
+  call bytes.(*Buffer).WriteByte requires spills-the-decoded-byte [C06 C08]: $1 == d.z.textBuf[(i + k) % _N]
+
+# ---------------------------------------------------------------------------
+# Writer (C06 / C07): representation invariant and header layout
+#   r, s   ring positions: r = start of the lookahead, s = where the next input byte goes
+#   len    bytes in the lookahead (F once pre-filled; drains only in Close)
+#   fileSize  bytes accepted so far (the value written to the header)
+#   textBuf[N..N+F-2] mirrors textBuf[0..F-2] so that InsertNode can compare strings across
+#   the ring seam without masking; a mirror slot is meaningful once its original was written
+# Not proved here (stated in DESIGN.md): that the (position, length) pairs found by
+# InsertNode denote equal strings, i.e. the LZSS search-tree invariant; index safety of
+# InsertNode/DeleteNode depends on it and is not claimed.
+# ---------------------------------------------------------------------------
+pred MirrorN(w, n) := forall k :: 0 <= k && k < _F - 1 && k < n - _F ==> w.z.textBuf[_N + k] == w.z.textBuf[k]
+pred Mirror(w) := MirrorN(w, w.fileSize)
+
+# every accepted byte is encoded exactly once: lastMatchLength counts the bytes of the lookahead
+# that the last emitted code still covers (the byte at r included), never more than there are
+pred Covered(w) := (w.fileSize == 0 && w.lastMatchLength == 0) || (1 <= w.lastMatchLength && w.lastMatchLength <= w.len + 1)
+
+pred WriterOK(w) :=
+     w.z != nil && w.buf != nil && w.w != nil && HuffInv(w.z)
+  && 0 <= w.fileSize && 0 <= w.s && w.s < _N && 0 <= w.r && w.r < _N
+  && (w.preFilled ==> w.len == _F && w.s == (w.fileSize - _F) % _N && w.r == (w.s + _N - _F) % _N)
+  && (!w.preFilled ==> w.len == w.fileSize && w.len < _F && w.r == _N - _F && w.s == 0)
+  && 0 <= w.z.matchLength && w.z.matchLength <= _F
+  && (w.z.matchLength > _Threshold ==> 0 <= w.z.matchPosition && w.z.matchPosition < _N - 1)
+  && w.err == nil
+  && Mirror(w)
+
+func lzhuf.(*lzhuf).InitTree(z) ()
+  props C06
+  loop 0 decreases _N + 257 - i
+  loop 1 decreases _N - i
+
+func lzhuf.(*lzhuf).InsertNode(z, r) ()
+  props C06
+  nosafety
+  requires r: 0 <= r && r < _N
+  ensures match-length: 0 <= z.matchLength && z.matchLength <= _F
+  ensures position-below-window: z.matchLength > _Threshold ==> z.matchPosition < _N - 1
+  # ASSUMPTION (needs the search-tree invariant: the node being inserted is not in the tree, so the
+  # distance to a node met on the way down is never 0 modulo N)
+  ensures_trusted position-nonneg: z.matchLength > _Threshold ==> 0 <= z.matchPosition
+  loop 0 invariant match-length: 0 <= z.matchLength && z.matchLength <= _F
+  loop 0 invariant position-below-window: z.matchLength > _Threshold ==> z.matchPosition < _N - 1
+  loop 1 invariant i: 1 <= i && i <= _F
+
+func lzhuf.(*lzhuf).DeleteNode(z, p) ()
+  props C06
+  nosafety
+
+func lzhuf.NewWriter(w, crc16) (wr)
+  props C06 C07
+  ensures ok: wr != nil && WriterOK(wr) && wr.crc16 == crc16 && !wr.preFilled && wr.fileSize == 0 && wr.err == nil
+  ensures window-of-spaces [C07]: forall k :: 0 <= k && k < _N - _F ==> wr.z.textBuf[k] == ' '
+  loop 0 invariant spaces: 0 <= i && i <= _N - _F && wr.r == _N - _F && forall k :: 0 <= k && k < i ==> wr.z.textBuf[k] == ' '
+  loop 0 invariant wr: wr != nil && wr.z != nil
+  loop 0 invariant huff: HuffInv(wr.z)
+  loop 0 invariant bufs: wr.buf != nil && wr.w != nil
+  loop 0 invariant fresh: wr.len == 0 && wr.s == 0 && wr.fileSize == 0 && !wr.preFilled && wr.z.matchLength == 0 && wr.err == nil && wr.crc16 == crc16
+  loop 0 decreases _N - _F - i
+
+func lzhuf.NewB2Writer(w) (wr)
+  props C07 C04
+  ensures b2-has-crc: wr != nil && wr.crc16
+
+# one step of the encoder: (optionally) take one input byte into the ring, index the string at r,
+# emit a code when the previous one is used up, drop the string at s, move on by one byte
+func lzhuf.(*Writer).advance(w, c) ()
+  props C06 C07
+  requires w: w.z != nil && w.buf != nil && HuffInv(w.z) && w.err == nil
+  requires pending: PutOK(w)
+  requires ring: 0 <= w.s && w.s < _N && 0 <= w.r && w.r < _N
+  requires lookahead: 1 <= w.len + ite(c != nil, 1, 0) && w.len <= _F
+  requires covered: 1 <= w.lastMatchLength && w.lastMatchLength <= w.len + 1
+  requires feeding: c != nil ==> w.len == _F && w.fileSize >= _F && w.s == (w.fileSize - _F) % _N && MirrorN(w, w.fileSize)
+  ensures w: HuffInv(w.z) && w.err == nil && PutOK(w)
+  ensures ring: w.s == (old(w.s) + 1) % _N && w.r == (old(w.r) + 1) % _N
+  ensures lookahead: w.len == old(w.len) + ite(c != nil, 1, 0) - 1
+  ensures covered: 1 <= w.lastMatchLength && w.lastMatchLength <= w.len + 1
+  ensures match: 0 <= w.z.matchLength && w.z.matchLength <= _F && (w.z.matchLength > _Threshold ==> 0 <= w.z.matchPosition && w.z.matchPosition < _N - 1)
+  ensures mirror: c != nil ==> MirrorN(w, w.fileSize + 1)
+  ensures unchanged: w.fileSize == old(w.fileSize) && w.preFilled == old(w.preFilled) && w.z == old(w.z) && w.buf == old(w.buf) && w.w == old(w.w) && w.crc16 == old(w.crc16)
+  ensures window-unchanged-by-draining: c == nil ==> forall k :: 0 <= k && k < _N + _F - 1 ==> w.z.textBuf[k] == old(w.z.textBuf[k])
+
+func lzhuf.(*Writer).Write(w, p) (n, err)
+  props C06 C07
+  requires ok: WriterOK(w) && PutOK(w) && Covered(w)
+  # the format's size field is 32 bits
+  requires size: w.fileSize + len(p) < 2147483647
+  ensures ok: WriterOK(w) && PutOK(w) && Covered(w)
+  ensures every-byte-accepted: n == len(p) && err == nil && w.fileSize == old(w.fileSize) + len(p)
+  loop 0 invariant ok: WriterOK(w) && PutOK(w) && Covered(w)
+  loop 0 invariant n: 0 <= n && n <= len(p) && w.fileSize == old(w.fileSize) + n
+  loop 0 decreases len(p) - n
+  loop 1 invariant ok: WriterOK(w) && PutOK(w) && Covered(w)
+  loop 1 invariant n: 0 <= n && n <= len(p) && w.fileSize == old(w.fileSize) + n
+  loop 1 invariant prefilled: n < len(p) ==> w.preFilled
+  loop 1 decreases len(p) - n
+
+# Close: drain the lookahead, flush the pending bits, then write the container -
+#   [CRC-16 little endian, only with crc16]  [uncompressed size, 32 bits little endian]  [codes]
+# with the CRC taken over the size field followed by the codes (the canonical B2 layout).
+ghost var gStage int
+ghost var gSizeBytes []byte
+ghost var gCodeBytes []byte
+ghost var gCrcLen int
+ghost var gCrc int
+
+func lzhuf.(*Writer).Close(w) (err)
+  props C06 C07 C04
+  requires ok: WriterOK(w) && PutOK(w) && Covered(w)
+  requires stage: gStage == 0
+  loop 0 invariant w: w.z != nil && w.buf != nil && w.w != nil && HuffInv(w.z) && w.err == nil && PutOK(w)
+  loop 0 invariant ring: 0 <= w.s && w.s < _N && 0 <= w.r && w.r < _N && 0 <= w.len && w.len <= _F
+  loop 0 invariant covered: (w.fileSize == 0 && w.len == 0) || (1 <= w.lastMatchLength && w.lastMatchLength <= w.len + 1)
+  loop 0 invariant match: 0 <= w.z.matchLength && w.z.matchLength <= _F && (w.z.matchLength > _Threshold ==> 0 <= w.z.matchPosition && w.z.matchPosition < _N - 1)
+  loop 0 invariant stage: gStage == 0 && w.fileSize == old(w.fileSize) && w.crc16 == old(w.crc16)
+  loop 0 decreases w.len
+  # nothing is left in the lookahead when the stream is finished
+  call lzhuf.(*Writer).encodeEnd requires lookahead-drained: w.len == 0
+  call binary.Write#0 requires size-field-little-endian-int32: typeis($1, "binary.littleEndian") && typeis($2, "int32") && unbox($2) == w.fileSize
+  call bytes.(*Buffer).Bytes#0 set gSizeBytes := $r0
+  call bytes.(*Buffer).Bytes#1 requires codes: $0 == w.buf
+  call bytes.(*Buffer).Bytes#1 set gCodeBytes := $r0
+  at append requires crc-over-size-then-codes: same($0, gSizeBytes) && same($1, gCodeBytes)
+  call lzhuf.crc requires crc-over-size-then-codes: len($0) == len(gSizeBytes) + len(gCodeBytes)
+  call lzhuf.crc set gCrc := $r0
+  call binary.Write#1 requires crc-first-little-endian: gStage == 0 && w.crc16 && unbox($0) == w.w && typeis($1, "binary.littleEndian") && unbox($2) == gCrc
+  call binary.Write#1 set gStage := 1
+  call io.Copy#0 requires size-field-second: gStage == ite(w.crc16, 1, 0) && unbox($0) == w.w
+  call io.Copy#0 set gStage := 2
+  call io.Copy#1 requires codes-last: gStage == 2 && unbox($0) == w.w && unbox($1) == w.buf
+  call io.Copy#1 set gStage := 3
+  call bufio.(*Writer).Flush requires everything-written: gStage == 3 && $0 == w.w
+
+# --- bit output -------------------------------------------------------------
+# putbuf's low 16 bits are a window whose top putlen (< 8) bits are pending output and whose
+# other bits are zero.  putCode appends the top l bits of the 16-bit code c: with
+# V = pending ++ code (putlen+l bits) it emits the leading whole bytes of V and keeps the rest.
+# (Stated for l <= 16: a Huffman code longer than 16 bits does not fit the 16-bit code word of
+# encodeChar - as in the canonical LZHUF.C; that bound is not implied by the tree invariant and
+# is not proved.)
+pred PutOK(w) := w.putlen < 8 && ((w.putbuf & 65535) & (65535 >> u64(w.putlen))) == 0
+pred P2(n) := ite(n <= 0, 1, ite(n == 1, 2, ite(n == 2, 4, ite(n == 3, 8, ite(n == 4, 16, ite(n == 5, 32, ite(n == 6, 64, ite(n == 7, 128, ite(n == 8, 256, ite(n == 9, 512, ite(n == 10, 1024, ite(n == 11, 2048, ite(n == 12, 4096, ite(n == 13, 8192, ite(n == 14, 16384, ite(n == 15, 32768, 65536))))))))))))))))
+pred PendV(w) := (w.putbuf & 65535) >> (16 - u64(w.putlen))
+
+func lzhuf.(*Writer).putCode(w, l, c) ()
+  props C06 C07
+  mode bv
+  requires w: w.buf != nil
+  requires l: 1 <= l
+  requires pending: PutOK(w)
+  ensures pending: l <= 16 && c < 65536 && c % P2(16 - l) == 0 ==> PutOK(w)
+  ensures no-error: old(w.err) == nil ==> w.err == nil
+  ensures pending-length: l <= 16 && old(w.err) == nil ==> u64(w.putlen) == (u64(old(w.putlen)) + l) % 8
+  ensures pending-bits: l <= 16 && c < 65536 && c % P2(16 - l) == 0 && old(w.err) == nil ==> PendV(w) == (((old(PendV(w)) << l) | (c >> (16 - l))) & ((1 << u64(w.putlen)) - 1))
+  call bytes.(*Buffer).WriteByte#0 requires first-byte: l <= 16 && c < 65536 ==> $1 == u8(((old(PendV(w)) << l) | (c >> (16 - l))) >> (u64(old(w.putlen)) + l - 8))
+  call bytes.(*Buffer).WriteByte#1 requires second-byte: l <= 16 && c < 65536 ==> $1 == u8(((old(PendV(w)) << l) | (c >> (16 - l))) >> (u64(old(w.putlen)) + l - 16))
+
+# the Huffman code of symbol c is the path from its leaf to the root, emitted root-first
+func lzhuf.(*Writer).encodeChar(w, c) ()
+  props C06 C07
+  requires w: w.buf != nil && w.z != nil && HuffInv(w.z)
+  requires sym: 0 <= c && c < _NumChar
+  requires pending: PutOK(w)
+  ensures inv: HuffInv(w.z)
+  ensures no-error: old(w.err) == nil ==> w.err == nil
+  # ASSUMPTION (not proved, see the note at PutOK): the code of a symbol is at most 16 bits long
+  call lzhuf.(*Writer).putCode assume code-fits-16-bits: $1 <= 16
+  ensures pending: PutOK(w)
+  loop 0 invariant node: 0 <= k && k < _R
+  loop 0 invariant j: 0 <= j && j <= k + 1
+  loop 0 invariant code-word: 0 <= i && i < 65536 && i % P2(16 - j) == 0
+  loop 0 decreases _R - k
+
+# a position is its upper 6 bits through the canonical code table followed by its lower 6 bits
+func lzhuf.(*Writer).encodePosition(w, c) ()
+  props C06 C07
+  requires w: w.buf != nil
+  mode bv
+  requires position: 0 <= c && c < 4096
+  requires pending: PutOK(w)
+  ensures pending: PutOK(w)
+  ensures no-error: old(w.err) == nil ==> w.err == nil
+  call lzhuf.(*Writer).putCode#0 requires upper-six-bits-by-table: $1 == u64(pLen[c >> 6]) && $2 == u64(pCode[c >> 6]) << 8
+  call lzhuf.(*Writer).putCode#1 requires lower-six-bits-verbatim: $1 == 6 && $2 == (c & 63) << 10
+
+func lzhuf.(*Writer).encodeEnd(w) ()
+  props C06 C07
+  requires w: w.buf != nil
+  call bytes.(*Buffer).WriteByte requires flushes-pending-bits: w.putlen != 0
+
+func lzhuf.(*Writer).encode(w) ()
+  props C06 C07
+  requires w: w.buf != nil && w.z != nil && HuffInv(w.z)
+  requires lookahead: 0 <= w.len && w.len <= _F + 1
+  requires r: 0 <= w.r && w.r < _N
+  requires pending: PutOK(w)
+  requires match: 0 <= w.z.matchLength && w.z.matchLength <= _F
+  requires position: w.z.matchLength > _Threshold ==> 0 <= w.z.matchPosition && w.z.matchPosition < _N - 1
+  ensures inv: HuffInv(w.z)
+  ensures pending: PutOK(w)
+  ensures no-error: old(w.err) == nil ==> w.err == nil
+  ensures match: 0 <= w.z.matchLength && w.z.matchLength <= _F && (w.z.matchLength > _Threshold ==> 0 <= w.z.matchPosition && w.z.matchPosition < _N - 1)
+  ensures consumed: w.len > 0 ==> w.lastMatchLength == w.z.matchLength && 1 <= w.lastMatchLength && w.lastMatchLength <= w.len
+  ensures nothing-left: w.len == 0 ==> w.lastMatchLength == old(w.lastMatchLength)
+  # a match never reaches beyond the bytes actually in the lookahead
+  call lzhuf.(*Writer).encodeChar#0 requires literal: w.z.matchLength == 1 && $1 == w.z.textBuf[w.r]
+  call lzhuf.(*Writer).encodeChar#1 requires length-code: $1 == 255 - _Threshold + w.z.matchLength && w.z.matchLength > _Threshold && w.z.matchLength <= w.len
+  call lzhuf.(*Writer).encodePosition requires position: $1 == w.z.matchPosition
+
+# ---------------------------------------------------------------------------
+# C07/C04: the checksum is CRC-16/XMODEM (polynomial x^16+x^12+x^5+1 = 0x1021, initial value
+# 0, no reflection, no final xor), computed in the "augmented message" form: each input byte
+# is shifted into the 16-bit register bit by bit, most significant bit first, and the message
+# is followed by two zero bytes.  xmodemByte is that bit-serial definition; udpCRC16 (one
+# table lookup) is proved equal to it for every register value and every byte.
+# ---------------------------------------------------------------------------
+smtdef xmodemByte((_ BitVec 16), (_ BitVec 64)) (_ BitVec 16) := (define-fun xmodemBit ((s (_ BitVec 16)) (b (_ BitVec 1))) (_ BitVec 16) (let ((t (bvor (bvshl s #x0001) ((_ zero_extend 15) b)))) (ite (= ((_ extract 15 15) s) #b1) (bvxor t #x1021) t))) (define-fun xmodemByte ((s (_ BitVec 16)) (c (_ BitVec 64))) (_ BitVec 16) (xmodemBit (xmodemBit (xmodemBit (xmodemBit (xmodemBit (xmodemBit (xmodemBit (xmodemBit s ((_ extract 7 7) c)) ((_ extract 6 6) c)) ((_ extract 5 5) c)) ((_ extract 4 4) c)) ((_ extract 3 3) c)) ((_ extract 2 2) c)) ((_ extract 1 1) c)) ((_ extract 0 0) c)))
+
+func lzhuf.udpCRC16(cp, sum) (r)
+  props C07 C04 C08
+  mode bv
+  requires byte: 0 <= cp && cp <= 255
+  ensures xmodem-byte-step: r == xmodemByte(sum, cp)
+
+# crc(p): register starts at 0, every byte of p is fed in order, then exactly two zero bytes
+func lzhuf.crc(p) (r)
+  props C07 C04
+  mode bv
+  at append requires two-zero-bytes-of-augmentation: same($0, p) && len($1) == 2 && $1[0] == 0 && $1[1] == 0
+  call lzhuf.udpCRC16 requires register-starts-at-zero: $idx == 0 ==> $1 == 0
+  call lzhuf.udpCRC16 requires byte: 0 <= $0 && $0 <= 255
+  loop 0 invariant register-starts-at-zero: $idx == -1 ==> sum == 0
 
 # crcFlush(s): the CRC value reported for accumulator state s (C07 pins it to CRC-16/XMODEM)
 fn crcFlush(Int) Int
@@ -195,6 +473,20 @@ func lzhuf.(*crcWriter).Sum(w) (r)
   props C08 C04 C07
   ensures_trusted def: r == crcFlush(w.sum)
   ensures frame: w.sum == old(w.sum)
+  # the flush is the two zero bytes of the augmented-message form, fed to the same byte step
+  call lzhuf.udpCRC16 requires flush-with-zero-bytes [C07]: $0 == 0
+  call lzhuf.udpCRC16 requires flush-continues-register [C07]: $idx == 0 ==> $1 == w.sum
+  loop 0 invariant flush-continues-register: $idx == -1 ==> sum == w.sum
+  at return requires flush-is-two-bytes [C07]: $idx0 == 2
+  loop 0 invariant w: w.sum == old(w.sum)
+
+# the running checksum of the compressed bytes: every byte, in order, through the byte step
+func lzhuf.(*crcWriter).Write(w, p) (n, err)
+  props C07 C04 C08
+  requires w: w != nil
+  call lzhuf.udpCRC16 requires feeds-each-byte-in-order: $0 == p[$idx] && $1 == w.sum
+  at return requires every-byte-fed: $idx0 >= len(p)
+  ensures whole: n == len(p) && err == nil
 
 # Close returns success only if every integrity verdict holds
 func lzhuf.(*Reader).Close(d) (err)
